@@ -154,7 +154,13 @@ def response_len(pdu):
         return 2
     if fc in (1, 2, 3, 4, 23, 12, 17, 20, 21):
         return None if len(pdu) < 2 else 2 + pdu[1]
-    if fc in (5, 6, 15, 16, 8, 11):
+    if fc == 8:
+        # 08/21 "get statistics" (operation 3) answers with a byte count and 54 words; every other
+        # diagnostic response carries one 16-bit data field
+        if len(pdu) >= 5 and pdu[1:5] == b'\x00\x15\x00\x03':
+            return 7 + 108
+        return 5
+    if fc in (5, 6, 15, 16, 11):
         return 5
     if fc == 22:
         return 7
